@@ -266,7 +266,27 @@ def decorate(r, cols, rows, x0, tags):
             tags.append("multiagg")
 
 
+def gen_pseudoobj(r, nmax):
+    """costs >= 0 (minimisation form), finite lower bounds, one covering row parallel to the objective: the trivial
+    heuristic finds an optimal point, pseudo-objective propagation tightens bounds that are active at degenerate optimal
+    vertices (TightenBoundsPS)"""
+    n = r.randint(2, 4)
+    c = [F(r.randint(1, 3)) for _ in range(n)]
+    k = F(r.choice([1, 2]))
+    cols = [(c[j], F(-r.randint(1, 6)), F(r.randint(4, 12))) for j in range(n)]
+    rows = [(F(0), {j: c[j] * k for j in range(n)}, None)]
+    if r.random() < 0.5:
+        co = {j: lpgen.rand_coef(r, 3) for j in r.sample(range(n), 2)}
+        rows.append((F(-40), co, F(40)))
+    maxi = r.random() < 0.3
+    if maxi:
+        cols = [(-o, lo, up) for (o, lo, up) in cols]
+    return lpgen.LP(maxi, 0, cols, rows, "pseudoobj"), ["pseudo-objective"]
+
+
 def gen_presolve_lp(r, nmax):
+    if r.random() < 0.06:
+        return gen_pseudoobj(r, nmax)
     base = r.randrange(12)
     if base < 4:
         cols, rows, x0 = gen_base(r, nmax)
@@ -585,9 +605,29 @@ def main():
     nalt = 3 if ck.tier == "quick" else 8
     r = ck.rng
     lps, tagsets = [], []
-    for c in lpgen.load_corpus("C08") + [c for c in lpgen.load_corpus("C01") if "agg" in c[0].family]:
-        lps.append(c[0])
-        tagsets.append(["corpus"])
+    replay_cfg = None
+    if ck.args.replay:
+        rp = json.load(open(ck.args.replay))
+        cols, rows, head = [], [], None
+        for l in rp.get("lp", "").splitlines():
+            t = l.split()
+            if t and t[0] == "LP":
+                head = t
+            elif t and t[0] == "C":
+                cols.append((F(t[1]), lpgen.fr(t[2]), lpgen.fr(t[3])))
+            elif t and t[0] == "R":
+                rows.append((lpgen.fr(t[1]), {int(e.split(":")[0]): F(e.split(":")[1]) for e in t[3:]}, lpgen.fr(t[2])))
+        if head is None:
+            print("replay file carries no LP (obligation-level replay): re-run ./check C08")
+        else:
+            lps.append(lpgen.LP(head[2] == "max", F(head[3]), cols, rows, "replay"))
+            tagsets.append(["replay"])
+            replay_cfg = [(int(rp.get("keepbounds") or 0), int(rp.get("seed") or 0))]
+            nlp = 0
+    else:
+        for c in lpgen.load_corpus("C08") + [c for c in lpgen.load_corpus("C01") if "agg" in c[0].family]:
+            lps.append(c[0])
+            tagsets.append(["corpus"])
     ncorpus = len(lps)
     while len(lps) < nlp + ncorpus:
         p, tags = gen_presolve_lp(r, nmax)
@@ -599,7 +639,7 @@ def main():
     runcfg = {}
     for k, p in enumerate(lps):
         txt += p.text(str(k)) + "\n"
-        cfgs = [(0, 0), (1, 0)] if k < ncorpus else [(r.randrange(2), r.randrange(1000))]
+        cfgs = (replay_cfg or [(0, 0), (1, 0)]) if k < ncorpus else [(r.randrange(2), r.randrange(1000))]
         if k >= ncorpus and r.random() < 0.35:
             cfgs.append((1 - cfgs[0][0], r.randrange(1000)))
         runcfg[k] = cfgs
@@ -755,6 +795,8 @@ def main():
                     tags.append("aggregation")
                 if "MultiAggregation" in hist:
                     tags.append("multiaggregation")
+                if "TightenBounds" in hist:
+                    tags.append("tightenbounds")
                 rep = dict(base, vertex_of_reduced_lp=ru["verts"].get(vid), unsimplified=u,
                            reduced_lp=(ru["redlp"].text("reduced") if ru.get("redlp") else None))
                 if "error" in u:
@@ -792,7 +834,8 @@ def main():
                 x, s = lpgen.vec_dy(u["x"]), lpgen.vec_dy(u["s"])
                 bad, incons = basis_problems(p, u["rs"].rstrip(","), u["cs"].rstrip(","), x, s)
                 if bad:
-                    ck.violation("basis-invalid:%s:%s" % (bad[0].split(":")[-1].split("!")[0], "+".join(tags) or "plain"), "the unsimplified basis is not valid for the original LP: %s (reductions %s)" % (bad, hist),
+                    cat = "count" if bad[0].startswith("count") else bad[0].split(":")[-1]
+                    ck.violation("basis-invalid:%s:%s" % (cat, "+".join(tags) or "plain"), "the unsimplified basis is not valid for the original LP: %s (reductions %s)" % (bad, hist),
                                  dict(rep, basis_problems=bad))
                 if incons:
                     ck.count("note:basis-status-inconsistent-with-point")
@@ -841,6 +884,13 @@ def main():
     ck.cov["step_replay"] = stepstat
     ck.cov["steps_modelled"] = MODELLED
     ck.cov["steps_not_modelled_covered_by_composite_only"] = sorted(set(stepstat) - set(MODELLED))
+    ck.cov["observations"] = [
+        "duplicateRows()/duplicateCols() never find anything on this tree: `m_dupRows[pClass[k]].add(k, 0.0)` / `m_dupCols[pClass[k]].add(k, 0.0)` are "
+        "no-ops because SVectorBase::add drops zero values, so DuplicateRowsPS / non-sentinel DuplicateColsPS never enter m_hist (reduction:DuplicateRows "
+        "= 0 in the input distribution although duplicate/parallel rows and columns are generated). Their step models were validated once against a "
+        "scratch tree with add(k, 1.0): 115 + 292 steps replayed, 0 mismatches; on that tree the revived DuplicateRowsPS returns wrong duals.",
+        "TightenBoundsPS (pseudo-objective bound propagation) can make a non-basic column BASIC with nothing leaving the basis: see "
+        "C08_TightenBounds_basis_count_refuted and corpus/C08/tighten-bounds.lp (signature basis-invalid:count:tightenbounds)"]
     ck.cov["worst_accepted_residuals"] = worst
     ck.cov["tolerances"] = {"tp": float(sc.TP), "td": float(sc.TD), "tc": float(sc.TC), "tv": float(sc.TV), "step_value_rel": VAL_REL}
     ck.cov["rule"] = ("LPs rich in presolve structure (around-a-point base + 1..5 decorations: empty/singleton/forcing/duplicate/parallel/free rows, empty/"
